@@ -5,6 +5,7 @@ The integrands are written here from the property text, not from the code:
 with n(z) = n0 - k exp(a z) (symbolic n0, k, a: every exponential model).
 """
 from pyvc.spec import *
+import numpy as np
 
 SP = "pyrex.ray_tracing.SpecializedRayTracePath"
 C = 299792458
@@ -416,6 +417,20 @@ def tracer_traces_from_lower_to_higher_endpoint():
     d1 = p1[1] - p0[1]
     prove("rho", And(tracer.rho >= 0, eq(tracer.rho * tracer.rho, d0 * d0 + d1 * d1)))
     prove("max-angle-is-critical-angle", eq(sin(tracer.max_angle) * tracer.n0, index(n0, k, a, tracer.z1)))
+    # the same holds after the endpoints of an existing tracer are reassigned (documented use of the
+    # lazily evaluated tracer objects): nothing of the old geometry may survive
+    q0 = vec("new_from")
+    q1 = vec("new_to")
+    assume(And(lo <= q0[2], q0[2] <= 0, lo <= q1[2], q1[2] <= 0))
+    tracer.from_point = np.array(q0)
+    tracer.to_point = np.array(q1)
+    prove("reassigned:z0-is-lower", eq(tracer.z0, ite(q0[2] <= q1[2], q0[2], q1[2])))
+    prove("reassigned:z1-is-higher", eq(tracer.z1, ite(q0[2] <= q1[2], q1[2], q0[2])))
+    prove("reassigned:n0-is-index-at-lower", eq(tracer.n0, index(n0, k, a, tracer.z0)))
+    e0 = q1[0] - q0[0]
+    e1 = q1[1] - q0[1]
+    prove("reassigned:rho", And(tracer.rho >= 0, eq(tracer.rho * tracer.rho, e0 * e0 + e1 * e1)))
+    prove("reassigned:max-angle", eq(sin(tracer.max_angle) * tracer.n0, index(n0, k, a, tracer.z1)))
 
 
 R_any = ufunc("R_any")
